@@ -301,7 +301,7 @@ impl World {
     pub fn step(&mut self, ch: &mut dyn Chooser) -> Result<(), Violation> {
         self.steps += 1;
         let n = self.handles.len();
-        let op = if n == 0 { 0 } else { ch.draw(22, "own.op") };
+        let op = if n == 0 { 0 } else { ch.draw(23, "own.op") };
         let pick = |ch: &mut dyn Chooser| ch.draw(n as u64, "own.h") as usize;
         let name: String;
         match op {
@@ -818,6 +818,87 @@ impl World {
                     ch.probe("own.dictionary_array");
                 }
                 name = "as_dictionary".into();
+            }
+            21 => {
+                // in-place binary kernel: the left operand is consumed and mutated only if uniquely owned; the right
+                // operand is borrowed: another handle of equal length, an alias of the left operand's own memory
+                // (a clone kept by the caller), or harness-owned memory
+                let i = pick(ch);
+                if matches!(self.handles[i].kind, Kind::Arr(_)) {
+                    let words = self.handles[i].len / 4;
+                    let peers: Vec<usize> = (0..n).filter(|&j| j != i && matches!(self.handles[j].kind, Kind::Arr(_)) && self.handles[j].len / 4 == words).collect();
+                    let mode = ch.draw(4, "own.bin_rhs");
+                    let fallible = ch.draw(2, "own.bin_try") == 1;
+                    let mut uniq = self.unique(self.handles[i].region);
+                    let rhs: Int32Array = match mode {
+                        0 if !peers.is_empty() => {
+                            ch.probe("own.binary_mut_peer");
+                            let j = peers[ch.draw(peers.len() as u64, "own.bin_peer") as usize];
+                            let Kind::Arr(b) = &self.handles[j].kind else { unreachable!() };
+                            b.clone()
+                        }
+                        1 => {
+                            // the caller keeps a clone of the left operand and passes it as the right one
+                            ch.probe("own.binary_mut_alias");
+                            uniq = false;
+                            let Kind::Arr(a) = &self.handles[i].kind else { unreachable!() };
+                            a.clone()
+                        }
+                        _ => Int32Array::from((0..words).map(|k| (k as i32).wrapping_mul(0x0101_0101) ^ self.steps as i32).collect::<Vec<i32>>()),
+                    };
+                    // the right operand's values as they are now: they must still be so afterwards
+                    let rhs_vals: Vec<i32> = rhs.values().to_vec();
+                    let h = self.take_handle(i);
+                    let Kind::Arr(a) = h.kind else { unreachable!() };
+                    let lhs_vals: Vec<i32> = i32s(&self.regions[h.region].bytes[h.off..h.off + h.len]);
+                    let fails_at = if fallible { lhs_vals.iter().zip(&rhs_vals).position(|(l, r)| (l ^ r) & 0x1f == 0x1f) } else { None };
+                    let res = if fallible {
+                        arrow_arith::arity::try_binary_mut(a, &rhs, |l, r| if (l ^ r) & 0x1f == 0x1f { Err(arrow_schema::ArrowError::ComputeError("refused".into())) } else { Ok(l.wrapping_sub(r)) })
+                    } else {
+                        arrow_arith::arity::binary_mut(a, &rhs, |l: i32, r: i32| l.wrapping_sub(r))
+                    };
+                    if rhs.values().as_ref() != rhs_vals.as_slice() {
+                        return Err(v("visible_bytes_changed", "array/binary_mut", "an in-place binary kernel changed its borrowed right operand".into()));
+                    }
+                    match res {
+                        Ok(r) => {
+                            ch.probe("own.binary_mut_ok");
+                            if (!uniq || self.foreign(h.region)) && words > 0 {
+                                return Err(v("in_place_on_shared", "array/binary_mut", format!("an in-place binary kernel took the mutable path on an array whose values are shared={} foreign={}", !uniq, self.foreign(h.region))));
+                            }
+                            match r {
+                                Ok(a2) => {
+                                    if fails_at.is_some() && words > 0 {
+                                        return Err(v("wrong_result", "array/binary_mut", "try_binary_mut returned an array although its operation failed on a row".into()));
+                                    }
+                                    let want: Vec<i32> = lhs_vals.iter().zip(&rhs_vals).map(|(l, r)| l.wrapping_sub(*r)).collect();
+                                    if a2.values().as_ref() != want.as_slice() || a2.null_count() != 0 {
+                                        return Err(v("wrong_result", "array/binary_mut", "an in-place binary kernel produced the wrong values".into()));
+                                    }
+                                    let view: Vec<u8> = want.iter().flat_map(|x| x.to_le_bytes()).collect();
+                                    let was_claimed = self.regions[h.region].claim != Claim::No;
+                                    let nr = self.add_region(view.clone(), None);
+                                    if was_claimed {
+                                        self.regions[nr].claim = Claim::Unknown;
+                                    }
+                                    self.add_handle(Kind::Arr(a2), nr, 0, view.len());
+                                }
+                                Err(_) => {
+                                    // the operation refused a row: the (uniquely owned) left operand is gone
+                                    ch.probe("own.binary_mut_op_error");
+                                    if fails_at.is_none() {
+                                        return Err(v("wrong_result", "array/binary_mut", "an in-place binary kernel reported an error the operation never returned".into()));
+                                    }
+                                }
+                            }
+                        }
+                        Err(a) => {
+                            ch.probe("own.binary_mut_declined");
+                            self.add_handle(Kind::Arr(a), h.region, h.off, h.len);
+                        }
+                    }
+                }
+                name = "binary_mut".into();
             }
             _ => {
                 let i = pick(ch);
